@@ -38,6 +38,33 @@ def _cases_for_version(args):
             for n in sorted(set(extra)):
                 nm = "%s_%d" % (seg, n)
                 cases.append({"kind": "open", "v": v, "seg": seg, "i": n, "j": 1, "s": 1, "name": nm, "path": [nm]})
+    # several positions at once: every defined field of a segment, in table order and in a shuffled order;
+    # open-ended segments with mixes of indices whose textual and numeric orders differ
+    for seg in T.seg_names(v):
+        rows = T.seg_rows(v, seg)
+        if not rows or seg == "MSH":
+            continue
+        idx = [r["i"] for r in rows if r["max"] != 0 and not (r["kind"] != "base" and False)]
+        idx = [r["i"] for r in rows if not (v in ("2.7", "2.8.2") and r["name"] == "PV1_52") and not (v == "2.1" and seg == "RX1")]
+        if not idx:
+            continue
+        order = list(idx)
+        cases.append({"kind": "full", "v": v, "seg": seg, "idx": idx, "order": order})
+        sh = list(idx)
+        rnd.shuffle(sh)
+        cases.append({"kind": "full", "v": v, "seg": seg, "idx": idx, "order": sh})
+        if rows[-1]["kind"] == "varies":
+            last = rows[-1]["i"]
+            for extra in ([last + 1, last + 8], [last + 9, last + 10, last + 11], [last + 2, last + 100], [last + 1, last + 2, last + 3]):
+                ii = [rows[0]["i"]] + extra
+                oo = list(ii)
+                rnd.shuffle(oo)
+                cases.append({"kind": "full", "v": v, "seg": seg, "idx": ii, "order": oo})
+    for z in ("ZIN", "Z9X"):
+        for ii in ([2, 10], [1, 9, 10, 11], [5, 12], [9, 100], [1, 2, 3, 4, 5, 6, 7, 8, 9, 10, 11, 12], [3, 20, 100, 101]):
+            for rev in (False, True):
+                oo = list(reversed(ii)) if rev else list(ii)
+                cases.append({"kind": "full", "v": v, "seg": z, "idx": ii, "order": oo})
     # Z segments
     N = 40 if tier == "quick" else 512
     for z in ("ZZZ", "Z01"):
@@ -109,9 +136,39 @@ def observe(case, level=None):
     return e
 
 
+def observe_full(case, level=None):
+    """several fields of one segment populated at once: idx -> distinct values"""
+    import_hl7apy()
+    from hl7apy.core import Segment
+    from hl7apy.parser import parse_segment
+    from hl7apy.consts import VALIDATION_LEVEL as VL
+    lvl = VL.STRICT if level == "S" else VL.TOLERANT
+    e = dict(case)
+    vals = ["%d" % (1000 + i) for i in case["idx"]]
+    e.update({"k": "full", "ec": EC, "vals": [cps(v) for v in vals], "enc": [], "preads": [], "lvl": level or "T",
+              "i": case["idx"][0] if case["idx"] else 0, "j": 1, "s": 1, "name": "", "path": []})
+    stage = "new"
+    try:
+        seg = Segment(case["seg"], version=case["v"], validation_level=lvl)
+        stage = "set"
+        for i, v in zip(case["order"], [vals[case["idx"].index(i)] for i in case["order"]]):
+            setattr(seg, "%s_%d" % (case["seg"].lower(), i), v)
+        stage = "enc"
+        enc = seg.to_er7()
+        e["enc"] = cps(enc)
+        stage = "parse"
+        p = parse_segment(enc, version=case["v"], validation_level=lvl)
+        stage = "read"
+        e["preads"] = [cps(getattr(p, "%s_%d" % (case["seg"].lower(), i)).to_er7().split("^")[0].split("&")[0]) for i in case["idx"]]
+        e["outcome"] = "ok"
+    except Exception as ex:
+        e["outcome"] = "%s@%s" % (exc_name(ex), stage)
+    return e
+
+
 def _observe_chunk(args):
     cases, level = args
-    return [observe(c, level) for c in cases]
+    return [observe_full(c, level) if c["kind"] == "full" else observe(c, level) for c in cases]
 
 
 def obs_index(e):
@@ -139,6 +196,10 @@ def signature(e, clause):
         sig["exc"] = e["outcome"]
         if e["outcome"].endswith("@new"):
             return sig
+    if e["kind"] == "full":
+        sig["idx"] = ",".join(str(i) for i in e["idx"])[:60]
+        sig["order"] = "table" if e["order"] == e["idx"] else "other"
+        return sig
     sig["pos"] = "%d.%d.%d" % (e["i"], e["j"], e["s"])
     if clause == "position":
         sig["at"] = "%s>%s" % (sig["pos"], obs_index(e))
@@ -169,7 +230,7 @@ def run(ctx):
     byid = {e["id"]: e for e in events}
     for e in events:
         if e["id"] not in trivial:
-            ctx.nontrivial((e["kind"], e["v"], e["seg"], e["i"], e["j"], e["s"], e.get("dt")))
+            ctx.nontrivial((e["kind"], e["v"], e["seg"], e["i"], e["j"], e["s"], e.get("dt"), tuple(e.get("order", []))))
     for i, clause in sorted(failed.items()):
         e = byid[i]
         ctx.fail(signature(e, clause), {"case": {k: e[k] for k in e if k not in ("ec",)}, "clause": clause,
